@@ -136,6 +136,26 @@ def _coerce_scalar(value: Any) -> Any:
         return value
 
 
+def _append_row(
+    columns: Dict[str, List[Any]], row: Mapping[Any, Any], index: int
+) -> None:
+    """Append row number ``index`` of a rows-as-runs source to ``columns``.
+
+    Position ``i`` of a column must be the value of row ``i``.  A key may stop
+    appearing (the column is then shorter, which ``by_position`` rejects), but a key
+    that an earlier row lacked cannot come back: its values would silently be paired
+    with the values of other rows.
+    """
+    for key, value in row.items():
+        column = columns.setdefault(str(key), [])
+        if len(column) != index:
+            raise ConfigurationError(
+                f"run_space source row {index + 1} holds the key '{key}' that row "
+                f"{len(column) + 1} lacks: the rows cannot be aligned by position"
+            )
+        column.append(value)
+
+
 def _load_source_file(path: Path, file_format: str) -> Dict[str, List[Any]]:
     """Load a source file into a columnar mapping.
 
@@ -186,6 +206,7 @@ def _load_source_file(path: Path, file_format: str) -> Dict[str, List[Any]]:
 
     elif file_format == "ndjson":
         columns = {}
+        index = 0
         with path.open("r", encoding="utf-8") as handle:
             for line in handle:
                 if not line.strip():
@@ -193,8 +214,8 @@ def _load_source_file(path: Path, file_format: str) -> Dict[str, List[Any]]:
                 row = json.loads(line)
                 if not isinstance(row, Mapping):
                     raise ConfigurationError("NDJSON source lines must be JSON objects")
-                for key, value in row.items():
-                    columns.setdefault(str(key), []).append(value)
+                _append_row(columns, row, index)
+                index += 1
         return columns
 
     elif file_format in ("json", "yaml"):
@@ -208,13 +229,12 @@ def _load_source_file(path: Path, file_format: str) -> Dict[str, List[Any]]:
 
         if isinstance(payload, list):
             columns = {}
-            for row in payload:
+            for index, row in enumerate(payload):
                 if not isinstance(row, Mapping):
                     raise ConfigurationError(
                         "run_space source list entries must be mappings"
                     )
-                for key, value in row.items():
-                    columns.setdefault(str(key), []).append(value)
+                _append_row(columns, row, index)
             return columns
         elif isinstance(payload, Mapping):
             return {
